@@ -309,13 +309,21 @@ Proof.
   apply pad_plain; try assumption. split; intros; contradiction.
 Qed.
 
+Lemma some_inj {A} (a b : A) : Some a = Some b -> a = b.
+Proof. intros H. now injection H. Qed.
+
 Lemma isprint_match (v X t : bytes) :
   (match v with [49%N] => Some X | _ => Some [] end) = Some t -> (v = [49%N] /\ t = X) \/ t = [].
 Proof.
   intros H. destruct v as [|c r]; [right; now injection H|].
-  destruct c as [|p]; [right; now injection H|].
-  do 6 (destruct p as [p|p|]; try (right; now injection H)); try (destruct r; [|right; now injection H]; left; split; [reflexivity | now injection H]);
-    try (destruct r; right; now injection H).
+  destruct (N.eq_dec c 49) as [->|Hc].
+  - destruct r; [left; split; [reflexivity | now injection H] | right; now injection H].
+  - right. assert ((match c :: r with [49%N] => Some X | _ => Some [] end) = Some []) as E.
+    { destruct c as [|p]; [reflexivity|].
+      destruct p as [p|p|]; try reflexivity. destruct p as [p|p|]; try reflexivity.
+      destruct p as [p|p|]; try reflexivity. destruct p as [p|p|]; try reflexivity.
+      destruct p as [p|p|]; try reflexivity. destruct p as [p|p|]; try reflexivity. congruence. }
+    rewrite E in H. now injection H.
 Qed.
 
 Lemma fmt_unicode_rel o f u1 u2 w1 w2 : osane o -> 0 <= u1 -> 0 <= u2 ->
@@ -339,7 +347,243 @@ Proof.
     repeat apply lf_free_cons; try discriminate. apply encode_rune_nolf. apply (Hp u eq_refl eq_refl). }
   destruct (if sharp (fl f) && (u1 <=? MaxRune) then _ else Some []) as [t1|] eqn:T1; [|discriminate].
   destruct (if sharp (fl f) && (u2 <=? MaxRune) then _ else Some []) as [t2|] eqn:T2; [|discriminate].
-  injection H1 as <-. injection H2 as <-.
+  apply some_inj in H1, H2. subst w1 w2.
   destruct (Hb u1 t1 P1 (Ht u1 t1 P1 T1)) as [L1 N1]. destruct (Hb u2 t2 P2 (Ht u2 t2 P2 T2)) as [L2 N2].
   apply pad_plain; try assumption. split; intros; contradiction.
 Qed.
+
+(* fmtQ: whichever quoting the two strings get, the texts are related *)
+Lemma fmt_q_rel o f s1 s2 w1 w2 : osane o -> fmt_q o f s1 = Some w1 -> fmt_q o f s2 = Some w2 -> usegw w1 w2.
+Proof.
+  intros Ho H1 H2.
+  assert (forall s w, fmt_q o f s = Some w -> exists b, w = pad f b /\ lf_free b /\ b <> []) as Hq.
+  { intros s w H. unfold fmt_q in H.
+    set (t := truncate f s) in *.
+    set (quoted := if plus (fl f) then olookup o (KQuoteAscii t) else olookup o (KQuote t)) in *.
+    assert (forall qs, quoted = Some qs -> lf_free qs /\ qs <> []) as Hqs.
+    { intros qs E. unfold quoted in E. destruct (plus (fl f)); destruct (Ho _ _ E) as (? & ? & _); auto. }
+    destruct (sharp (fl f)).
+    - destruct (olookup o (KBackquote t)) as [v|] eqn:Eb; [|discriminate].
+      destruct (Ho _ _ Eb) as (_ & _ & Hbq & _).
+      destruct (N.eq_dec (hd 0%N v) 49) as [Hh|Hh]; destruct v as [|c r]; cbn [hd] in Hh.
+      + discriminate.
+      + subst c. destruct r.
+        * injection H as <-. exists ((96%N :: t) ++ [96%N]). split; [reflexivity|]. split; [|discriminate].
+          apply lf_free_app; [apply lf_free_cons; [discriminate|]; apply (Hbq t eq_refl eq_refl) | repeat constructor; discriminate].
+        * destruct quoted as [qs|] eqn:Eq; [|discriminate]. injection H as <-. destruct (Hqs qs eq_refl). eauto.
+      + destruct quoted as [qs|] eqn:Eq; [|discriminate]. injection H as <-. destruct (Hqs qs eq_refl). eauto.
+      + assert ((match c :: r with [49%N] => Some (pad f ((96%N :: t) ++ [96%N])) | _ => match quoted with Some qs => Some (pad f qs) | None => None end end)
+                = match quoted with Some qs => Some (pad f qs) | None => None end) as E.
+        { destruct c as [|p]; [reflexivity|].
+          destruct p as [p|p|]; try reflexivity. destruct p as [p|p|]; try reflexivity.
+          destruct p as [p|p|]; try reflexivity. destruct p as [p|p|]; try reflexivity.
+          destruct p as [p|p|]; try reflexivity. destruct p as [p|p|]; try reflexivity. congruence. }
+        rewrite E in H. destruct quoted as [qs|] eqn:Eq; [|discriminate]. injection H as <-. destruct (Hqs qs eq_refl). eauto.
+    - destruct quoted as [qs|] eqn:Eq; [|discriminate]. injection H as <-. destruct (Hqs qs eq_refl). eauto. }
+  destruct (Hq _ _ H1) as (b1 & -> & L1 & N1). destruct (Hq _ _ H2) as (b2 & -> & L2 & N2).
+  apply pad_plain; try assumption. split; intros; contradiction.
+Qed.
+
+(* ---------- strings that differ in ASCII content only ---------- *)
+Fixpoint srel (s1 s2 : bytes) : Prop :=
+  match s1, s2 with
+  | [], [] => True
+  | a :: r1, b :: r2 => (a = b \/ ((a < 128)%N /\ (b < 128)%N /\ a <> LF /\ b <> LF)) /\ srel r1 r2
+  | _, _ => False
+  end.
+
+Lemma srel_refl s : srel s s.
+Proof. induction s; cbn; auto. Qed.
+Lemma srel_length s1 : forall s2, srel s1 s2 -> length s1 = length s2.
+Proof. induction s1 as [|a r IH]; intros [|b r2] H; cbn in *; try contradiction; [reflexivity|]. f_equal. apply IH, H. Qed.
+Lemma srel_kinds s1 : forall s2, srel s1 s2 -> kinds_b s1 = kinds_b s2.
+Proof.
+  induction s1 as [|a r IH]; intros [|b r2] H; cbn in *; try contradiction; [reflexivity|].
+  destruct H as [Hab Hr]. unfold kinds_b in *. cbn [map]. rewrite (IH _ Hr). f_equal.
+  destruct Hab as [->|(_ & _ & Ha & Hb)]; [reflexivity|].
+  apply N.eqb_neq in Ha, Hb. now rewrite Ha, Hb.
+Qed.
+Lemma srel_app a1 : forall a2 b1 b2, srel a1 a2 -> srel b1 b2 -> srel (a1 ++ b1) (a2 ++ b2).
+Proof. induction a1 as [|x r IH]; intros [|y r2] b1 b2 Ha Hb; cbn in *; try contradiction; [exact Hb|]. destruct Ha; split; auto. Qed.
+Lemma srel_firstn n : forall s1 s2, srel s1 s2 -> srel (firstn n s1) (firstn n s2).
+Proof. induction n as [|k IH]; intros [|a r] [|b r2] H; cbn in *; try contradiction; auto. destruct H; split; auto. Qed.
+Lemma srel_skipn n : forall s1 s2, srel s1 s2 -> srel (skipn n s1) (skipn n s2).
+Proof. induction n as [|k IH]; intros [|a r] [|b r2] H; cbn in *; try contradiction; auto. destruct H; auto. Qed.
+
+(* tests on bytes that single out values >= 128 agree on related bytes *)
+Definition brel (a b : N) : Prop := a = b \/ ((a < 128)%N /\ (b < 128)%N /\ a <> LF /\ b <> LF).
+Lemma brel_rng lo hi a b : (128 <= lo)%N -> brel a b -> in_rng lo hi a = in_rng lo hi b.
+Proof. intros Hl [->|(Ha & Hb & _)]; [reflexivity|]. unfold in_rng. lia. Qed.
+Lemma brel_lt a b : brel a b -> (a <? 128)%N = (b <? 128)%N.
+Proof. intros [->|(Ha & Hb & _)]; [reflexivity|]. lia. Qed.
+Lemma brel_hi a b : brel a b -> (a <? 128)%N = false -> a = b.
+Proof. intros [->|(Ha & _)] H; [reflexivity|]. lia. Qed.
+
+Lemma srel_decode_width s1 s2 : srel s1 s2 -> snd (decode_rune s1) = snd (decode_rune s2).
+Proof.
+  intros H. destruct s1 as [|a0 r1], s2 as [|b0 r2]; cbn [srel] in H; try contradiction; [reflexivity|].
+  destruct H as [H0 H]. fold (brel a0 b0) in H0. unfold decode_rune.
+  rewrite <- (brel_lt _ _ H0). destruct (a0 <? 128)%N eqn:E0; [reflexivity|].
+  pose proof (brel_hi _ _ H0 E0) as <-.
+  destruct (in_rng 194 223 a0).
+  { destruct r1 as [|a1 r1], r2 as [|b1 r2]; cbn [srel] in H; try contradiction; [reflexivity|].
+    destruct H as [H1 _]. fold (brel a1 b1) in H1. unfold is_cont. rewrite <- (brel_rng 128 191 _ _ ltac:(lia) H1).
+    destruct (in_rng 128 191 a1); reflexivity. }
+  destruct (in_rng 224 239 a0).
+  { destruct r1 as [|a1 [|a2 r1]], r2 as [|b1 [|b2 r2]]; cbn [srel] in H; try reflexivity; try (destruct H as [_ H]; contradiction); try contradiction.
+    destruct H as [H1 [H2 _]]. fold (brel a1 b1) in H1. fold (brel a2 b2) in H2. unfold is_cont.
+    rewrite <- (brel_rng 128 191 _ _ ltac:(lia) H2).
+    rewrite <- (brel_rng (if (a0 =? 224)%N then 160%N else 128%N) (if (a0 =? 237)%N then 159%N else 191%N) _ _ ltac:(destruct (a0 =? 224)%N; lia) H1).
+    destruct (in_rng _ _ a1 && in_rng 128 191 a2); reflexivity. }
+  destruct (in_rng 240 244 a0); [|reflexivity].
+  destruct r1 as [|a1 [|a2 [|a3 r1]]], r2 as [|b1 [|b2 [|b3 r2]]]; cbn [srel] in H; try reflexivity;
+    try (destruct H as [_ H]; try contradiction; destruct H as [_ H]; contradiction); try contradiction.
+  destruct H as [H1 [H2 [H3 _]]]. fold (brel a1 b1) in H1. fold (brel a2 b2) in H2. fold (brel a3 b3) in H3. unfold is_cont.
+  rewrite <- (brel_rng 128 191 _ _ ltac:(lia) H2), <- (brel_rng 128 191 _ _ ltac:(lia) H3).
+  rewrite <- (brel_rng (if (a0 =? 240)%N then 144%N else 128%N) (if (a0 =? 244)%N then 143%N else 191%N) _ _ ltac:(destruct (a0 =? 240)%N; lia) H1).
+  destruct (in_rng _ _ a1 && in_rng 128 191 a2 && in_rng 128 191 a3); reflexivity.
+Qed.
+
+Lemma decode_rune_pair p : decode_rune p = (fst (decode_rune p), snd (decode_rune p)).
+Proof. destruct (decode_rune p); reflexivity. Qed.
+
+Lemma srel_rune_count_aux fuel : forall s1 s2, srel s1 s2 -> rune_count_aux fuel s1 = rune_count_aux fuel s2.
+Proof.
+  induction fuel as [|k IH]; intros s1 s2 H; [reflexivity|].
+  cbn [rune_count_aux]. destruct s1 as [|a r1], s2 as [|b r2]; cbn [srel] in H; try contradiction; [reflexivity|].
+  rewrite (decode_rune_pair (a :: r1)), (decode_rune_pair (b :: r2)).
+  rewrite (srel_decode_width (a :: r1) (b :: r2) H). f_equal. apply IH. apply srel_skipn. exact H.
+Qed.
+
+Lemma srel_rune_count s1 s2 : srel s1 s2 -> rune_count s1 = rune_count s2.
+Proof. intros H. unfold rune_count. rewrite (srel_length _ _ H). now apply srel_rune_count_aux. Qed.
+
+Lemma srel_take_runes fuel : forall n s1 s2, srel s1 s2 -> srel (take_runes fuel n s1) (take_runes fuel n s2).
+Proof.
+  induction fuel as [|k IH]; intros n s1 s2 H; [exact Logic.I|].
+  cbn [take_runes]. destruct s1 as [|a r1], s2 as [|b r2]; cbn [srel] in H; try contradiction; [exact Logic.I|].
+  destruct (n <=? 0); [exact Logic.I|].
+  rewrite (decode_rune_pair (a :: r1)), (decode_rune_pair (b :: r2)).
+  rewrite (srel_decode_width (a :: r1) (b :: r2) H).
+  apply srel_app; [apply srel_firstn | apply IH, srel_skipn]; exact H.
+Qed.
+
+Lemma srel_truncate f s1 s2 : srel s1 s2 -> srel (truncate f s1) (truncate f s2).
+Proof.
+  intros H. unfold truncate. destruct (precPresent (fl f)); [|exact H].
+  rewrite (srel_length _ _ H). now apply srel_take_runes.
+Qed.
+
+Lemma kinds_repeat c n : c <> LF -> kinds_b (repeat c n) = repeat false n.
+Proof. intros H. unfold kinds_b. induction n; cbn; [reflexivity|]. apply N.eqb_neq in H. now rewrite H, IHn. Qed.
+
+(* padding two related strings *)
+Lemma pad_srel f b1 b2 : srel b1 b2 -> usegw (pad f b1) (pad f b2).
+Proof.
+  intros H. apply usegw_intro; [now rewrite !hasreal_pad|].
+  destruct (pay_pad f b1) as (n1 & P1 & N1). destruct (pay_pad f b2) as (n2 & P2 & N2).
+  assert (n1 = n2) as <- by (rewrite N1, N2; unfold zrunes; now rewrite (srel_rune_count _ _ H)).
+  assert (pay (pad f b1) = repeat (padc f) n1 ++ b1 /\ pay (pad f b2) = repeat (padc f) n1 ++ b2 \/
+          pay (pad f b1) = b1 ++ repeat (padc f) n1 /\ pay (pad f b2) = b2 ++ repeat (padc f) n1) as [[-> ->] | [-> ->]].
+  { unfold pad in *. destruct (negb (widPresent (fl f)) || (wid f =? 0)).
+    - left. unfold pay. cbn. subst n1. cbn. now rewrite !app_nil_r.
+    - destruct (negb (minus (fl f))).
+      + left. rewrite !pay_app, !pay_write_padding. unfold pay. cbn. rewrite !app_nil_r. rewrite <- N1, <- N2. auto.
+      + right. change (WS b1 :: ?x) with ([WS b1] ++ x). split.
+        * change (WS b1 :: write_padding f (wid f - zrunes b1)) with ([WS b1] ++ write_padding f (wid f - zrunes b1)).
+          rewrite pay_app, pay_write_padding. unfold pay at 1. cbn. rewrite app_nil_r, <- N1. reflexivity.
+        * change (WS b2 :: write_padding f (wid f - zrunes b2)) with ([WS b2] ++ write_padding f (wid f - zrunes b2)).
+          rewrite pay_app, pay_write_padding. unfold pay at 1. cbn. rewrite app_nil_r, <- N2. reflexivity. }
+  - rewrite !kinds_b_app, (srel_kinds _ _ H). reflexivity.
+  - rewrite !kinds_b_app, (srel_kinds _ _ H). reflexivity.
+Qed.
+
+Lemma fmt_s_rel f s1 s2 : srel s1 s2 -> usegw (fmt_s f s1) (fmt_s f s2).
+Proof. intros H. unfold fmt_s. apply pad_srel, srel_truncate, H. Qed.
+
+(* ---------- fmtSbx: hex digits, no line feed; as many as the length dictates ---------- *)
+Definition plainw (w : wop) : Prop :=
+  match w with WB c => c <> LF | WG _ => True | _ => False end.
+Definition isWB (w : wop) : bool := match w with WB _ => true | _ => false end.
+Definition wcount (ws : list wop) : nat := length (filter isWB ws).
+
+Lemma wcount_app a b : wcount (a ++ b) = (wcount a + wcount b)%nat.
+Proof. unfold wcount. now rewrite filter_app, app_length. Qed.
+
+Lemma pay_wb1 c : pay [WB c] = [if ((128 <=? c) || (c =? 226))%N then 63%N else c].
+Proof. unfold pay. cbn [ops_of map op_of wpay payload_of mode_eqb andb]. destruct ((128 <=? c) || (c =? 226))%N; reflexivity. Qed.
+
+Lemma plain_pay ws : Forall plainw ws -> lf_free (pay ws) /\ length (pay ws) = wcount ws /\ hasreal ws = (0 <? wcount ws)%nat.
+Proof.
+  induction 1 as [|w r Hw Hr (IH1 & IH2 & IH3)]; [repeat split; constructor|].
+  change (w :: r) with ([w] ++ r). rewrite pay_app, hasreal_app, wcount_app.
+  destruct w as [c| | |n]; cbn [plainw] in Hw; try contradiction.
+  - rewrite pay_wb1. change (hasreal [WB c]) with true. change (wcount [WB c]) with 1%nat.
+    cbn [app length orb Nat.add]. repeat split; [|now rewrite IH2].
+    constructor; [|assumption]. destruct ((128 <=? c) || (c =? 226))%N; [discriminate | assumption].
+  - change (pay [WG n]) with (@nil N). change (hasreal [WG n]) with false. change (wcount [WG n]) with 0%nat.
+    cbn [app orb Nat.add]. repeat split; assumption.
+Qed.
+
+Lemma plain_repeat_wb n c : c <> LF -> Forall plainw (repeat_wb n c).
+Proof. intros. induction n; cbn; constructor; cbn; auto. Qed.
+Lemma plain_write_padding f n : Forall plainw (write_padding f n).
+Proof.
+  unfold write_padding. destruct (n <=? 0); [constructor|]. constructor; [exact Logic.I|].
+  destruct (zero (fl f)); apply plain_repeat_wb; discriminate.
+Qed.
+
+Lemma digit_char_nolf' up d : 0 <= d -> digit_char up d <> LF.
+Proof.
+  intros H. unfold digit_char, ch, LF. destruct (d <? 10) eqn:E; [|destruct up]; intros X; apply (f_equal Z.of_N) in X; rewrite Z2N.id in X by lia; change (Z.of_N 10) with 10 in X; lia.
+Qed.
+
+Lemma plain_sbx_body x up s : forall first, Forall plainw (sbx_body x up first s).
+Proof.
+  induction s as [|c r IH]; intros first; cbn [sbx_body]; [constructor|].
+  apply Forall_app. split.
+  - destruct (space x && negb first); [|constructor]. constructor; [cbn; discriminate|].
+    destruct (sharp x); [|constructor]. constructor; [cbn; discriminate|].
+    constructor; [|constructor]. cbn. destruct up; discriminate.
+  - apply Forall_app. split; [|apply IH].
+    pose proof (N2Z.is_nonneg c).
+    constructor; [|constructor; [|constructor]]; cbn; apply digit_char_nolf'.
+    + apply Z.div_pos; lia.
+    + pose proof (Z.mod_pos_bound (Z.of_N c) 16). lia.
+Qed.
+
+Lemma wcount_sbx_body x up : forall s1 s2 first, length s1 = length s2 ->
+  wcount (sbx_body x up first s1) = wcount (sbx_body x up first s2).
+Proof.
+  induction s1 as [|a r IH]; intros [|b r2] first H; cbn [length] in H; try discriminate; [reflexivity|].
+  cbn [sbx_body]. rewrite !wcount_app. rewrite (IH r2 false) by lia. reflexivity.
+Qed.
+
+Lemma fmt_sbx_rel f s1 s2 up : length s1 = length s2 -> usegw (fmt_sbx f s1 up) (fmt_sbx f s2 up).
+Proof.
+  intros H.
+  assert (forall s, Forall plainw (fmt_sbx f s up)) as Hp.
+  { intros s. unfold fmt_sbx. cbn zeta.
+    destruct (0 <? 2 * _).
+    - apply Forall_app; split; [|apply Forall_app; split; [|apply Forall_app; split]].
+      + destruct (_ && _ && _); [apply plain_write_padding | constructor].
+      + destruct (sharp (fl f)); [|constructor]. constructor; [cbn; discriminate|]. constructor; [|constructor]. cbn. destruct up; discriminate.
+      + apply plain_sbx_body.
+      + destruct (_ && _ && _); [apply plain_write_padding | constructor].
+    - destruct (widPresent (fl f)); [apply plain_write_padding | constructor]. }
+  assert (wcount (fmt_sbx f s1 up) = wcount (fmt_sbx f s2 up)) as Hc.
+  { unfold fmt_sbx, zlen. rewrite H. cbn zeta.
+    destruct (0 <? 2 * _); [|reflexivity].
+    rewrite !wcount_app. f_equal. f_equal. f_equal. apply wcount_sbx_body. now rewrite !firstn_length, H. }
+  destruct (plain_pay _ (Hp s1)) as (L1 & N1 & R1). destruct (plain_pay _ (Hp s2)) as (L2 & N2 & R2).
+  apply usegw_plain; try assumption.
+  - rewrite <- Hc in N2. split; intros E; [rewrite E in N1 | rewrite E in N2]; cbn in *.
+    + destruct (pay (fmt_sbx f s2 up)); [reflexivity|]. cbn in N2. lia.
+    + destruct (pay (fmt_sbx f s1 up)); [reflexivity|]. cbn in N1. lia.
+  - now rewrite R1, R2, Hc.
+Qed.
+
+Print Assumptions fmt_integer_rel.
+Print Assumptions fmt_s_rel.
+Print Assumptions fmt_sbx_rel.
+Print Assumptions fmt_q_rel.
